@@ -1,6 +1,7 @@
 (* C01 — Chunk reads return exactly the bytes stored under that address.  Property theorems only. *)
 From Coq Require Import NArith List Bool Sorting.Permutation Sorting.Sorted.
-From Dolt Require Import Base.Str Gen.C01Consts C01.Model C01.Spec C01.Corr C01.Proofs.
+From Dolt Require Import Base.Str Gen.C01Consts C01.Model C01.Spec C01.Corr C01.Proofs C01.ProofsBytes C01.ProofsSort C01.ProofsTable
+  C01.ProofsStore C01.ProofsStore2 C01.ProofsStore3 C01.ProofsStore4 C01.ProofsStore5.
 Import ListNotations.
 Local Open Scope N_scope.
 
@@ -91,3 +92,40 @@ Theorem C01_tableset_has_many_spec :
           snd r' = snd r || in_tables rss (fst r)).
 Proof. exact tableset_has_many_spec. Qed.
 Print Assumptions C01_tableset_has_many_spec.
+
+(* byte level: parse_index of the written bytes is the index the theorems above talk about *)
+Theorem C01_parse_write_table :
+  forall ts rs, valid_tuples ts rs -> table_fits rs ->
+    parse_index (write_table_with ts rs) = Some (build_pindex ts rs).
+Proof. exact parse_write_table. Qed.
+Print Assumptions C01_parse_write_table.
+
+Theorem C01_lookup_parsed_written_table :
+  forall ts rs h, valid_tuples ts rs -> table_fits rs -> distinct_addrs rs ->
+    option_map (fun ix => lookup ix h) (parse_index (write_table_with ts rs)) = Some (lookup_spec rs h).
+Proof. exact lookup_parsed_written_table. Qed.
+Print Assumptions C01_lookup_parsed_written_table.
+
+(* HEADLINE: for every history (content-addressed puts with well-formed
+   addresses, batched reads over sets, old-generation writes only in generational
+   configurations), every memtable size with memsz + 4 < 2^32 and every
+   configuration, every Get / Has / GetMany / GetManyCompressed / HasMany /
+   IterateAllChunks answer of the store state machine (memtable, auto-flush,
+   flush with has-filter, novel then upstream, old/new generation) is the answer of
+   the abstract map of accepted puts *)
+Theorem C01_store_refines_map :
+  forall (content : addr -> bytes) (memsz : N), memsz + checksum_size < 2 ^ 32 ->
+    forall (cfg : N) (ops : list op),
+      Forall (good_op cfg content) ops -> oracle (cfg, memsz, ops) (model_obs (cfg, memsz, ops)) = true.
+Proof. exact store_refines_map. Qed.
+Print Assumptions C01_store_refines_map.
+
+Theorem C01_reads_agree :
+  forall (content : addr -> bytes) (memsz : N) (cfg : N) g st rO rN a,
+    Sim content memsz cfg g st rO rN ->
+    (if gen cfg then g_get crc0 decomp0 g a else st_get (g_new g) a)
+    = ROk (if (if gen cfg then g_has g a else st_has (g_new g) a) then Some (content a) else None)
+    /\ Permutation (if gen cfg then g_has_many g [a] else st_has_many (g_new g) [a])
+                    (if (if gen cfg then g_has g a else st_has (g_new g) a) then [] else [a]).
+Proof. exact reads_agree. Qed.
+Print Assumptions C01_reads_agree.
